@@ -78,6 +78,10 @@ class SChar(Sym):
 
     def method(self, I, name, args, kwargs, node):
         if name in ("isdigit", "isalpha", "isalnum"):
+            t = z3.simplify(self.t)
+            if z3.is_int_value(t):        # a concrete character: CPython's own answer
+                c = t.as_long()
+                return getattr("" if c < 0 else chr(c), name)()
             return bool_val(cpred(name)(self.t))
         raise Unsupported(f"str.{name} on a scanned character")
 
@@ -107,6 +111,11 @@ class TChar(Type):
 
 def text_id(chars):
     """The string spelled by a list of characters, as an atom id (uninterpreted function of contents and length)."""
+    n = z3.simplify(chars.len)
+    if z3.is_int_value(n) and n.as_long() <= 4096:          # fully concrete text: the atom of the actual string
+        cs = [z3.simplify(chars.arr[k]) for k in range(n.as_long())]
+        if all(z3.is_int_value(c) for c in cs):
+            return z3.IntVal(intern("".join(chr(c.as_long()) for c in cs)))
     i = z3.Int("txt_i")
     arr = z3.simplify(z3.Lambda([i], chars.arr[i]))
     return ufun("str.of_chars", z3.ArraySort(I_, I_), I_, I_)(arr, chars.len)
